@@ -10,10 +10,12 @@ from a real, verified instance and moves it along the dimensions the custom form
   default_changed   set a default-valued property to another value its constraint accepts
   default_removed   delete a default-valued property (the verifier accepts that for optional ones)
   extra_attrs       add discardable attributes (attr-dict path), incl. names that need quoting and unit attrs
-  inherent_in_dict  move an inherent attribute (a property) into the attribute dictionary
   var_shrink/var_grow/opt_operand_drop/opt_operand_add
                     change the length of a variadic operand group to 0 / 1 / 3, drop / add an optional operand
-                    (the op is rebuilt through IRDLOperation.build, which recomputes operandSegmentSizes)
+                    (the op is rebuilt through IRDLOperation.build, which recomputes operandSegmentSizes; only
+                    ops WITHOUT regions: block arguments of attached regions usually mirror the operands - linalg
+                    hidden regions, loop iter_args - and verifiers do not check that, so resizing there leaves the
+                    domain of IR any parser could have produced)
 
 A mutation is kept only if the mutated op verifies (`op.verify()`), and a mutation round only if the whole
 module still verifies, so everything that reaches the oracle is inside the property's domain.  Values for
@@ -26,7 +28,7 @@ from dataclasses import dataclass
 SEGMENT_NAMES = ("operandSegmentSizes", "resultSegmentSizes", "regionSegmentSizes", "successorSegmentSizes",
                  "operand_segment_sizes", "result_segment_sizes")
 MUTATIONS = ["drop_opt", "add_opt", "default_explicit", "default_changed", "default_removed", "extra_attrs",
-             "inherent_in_dict", "var_shrink", "var_grow", "opt_operand_drop", "opt_operand_add"]
+             "var_shrink", "var_grow", "opt_operand_drop", "opt_operand_add"]
 EXTRA_ATTR_SETS = [
     [("xv.extra", "i")],
     [("xv_unit", "u")],
@@ -64,9 +66,30 @@ def satisfies(constr, attr) -> bool:
         return False
 
 
-def op_verifies(op) -> bool:
+class cheap_diagnostics:
+    """While candidate mutants are filtered through the verifier, a rejection must not print the whole module into
+    the exception notes (Diagnostic.raise_exception does, ~20 ms per rejection). Only the error REPORT is
+    shortened; what verifies and what does not is untouched."""
+
+    def __enter__(self):
+        from xdsl.utils.diagnostic import Diagnostic
+        self._cls = Diagnostic
+        self._old = Diagnostic.raise_exception
+
+        def raise_exception(self_, ir, underlying_error):
+            raise underlying_error
+        Diagnostic.raise_exception = raise_exception
+        return self
+
+    def __exit__(self, *a):
+        self._cls.raise_exception = self._old
+        return False
+
+
+def op_verifies(op, nested=False) -> bool:
     try:
-        op.verify(verify_nested_ops=False)
+        with cheap_diagnostics():
+            op.verify(verify_nested_ops=nested)
         return True
     except Exception:  # noqa: BLE001 - the verifier decides membership in the domain
         return False
@@ -285,25 +308,6 @@ def mutate_op(op, kind, rng, pool, pick):
                         return Applied(kind, op.name, k, undo)
                     undo()
         return None
-    if kind == "inherent_in_dict":
-        targets = [k for k in op.properties if k in d.properties and k not in SEGMENT_NAMES and k not in op.attributes]
-        if not targets:
-            return None
-        k = targets[pick % len(targets)]
-        oldp, olda = dict(op.properties), dict(op.attributes)
-        op.attributes[k] = op.properties.pop(k)
-
-        def undo():
-            op.properties.clear()
-            op.properties.update(oldp)
-            op.attributes.clear()
-            op.attributes.update(olda)
-        # NOTE: the IRDL verifier may reject a missing property; the property text counts such IR as equivalent only
-        # "when given in the attribute dictionary" of the textual form, so keep it only if the op still verifies.
-        if not op_verifies(op):
-            undo()
-            return None
-        return Applied(kind, op.name, k, undo)
     if kind in ("var_shrink", "var_grow", "opt_operand_drop", "opt_operand_add"):
         return _mutate_operands(op, kind, rng, pick)
     raise ValueError(kind)
@@ -312,7 +316,7 @@ def mutate_op(op, kind, rng, pool, pick):
 def _mutate_operands(op, kind, rng, pick):
     from xdsl.irdl import OptionalDef, VariadicDef
     d = type(op).get_irdl_definition()
-    if not all(hasattr(op, n) for n, _ in d.operands + d.results + d.regions + d.successors):
+    if op.regions or not all(hasattr(op, n) for n, _ in d.operands + d.results + d.regions + d.successors):
         return None
     groups = [_group(getattr(op, n)) for n, _ in d.operands]
     if sum(len(g) for g in groups) != len(op.operands):
